@@ -119,37 +119,47 @@ theorem MarkNeverPassesUnfinished_counterexample : ¬ MarkNeverPassesUnfinished 
 theorem commit_packed_eq (m : Marks) (r : Rec)
     (hr : inRange r.topic r.part r.offset r.epoch = true) :
     commitPacked m (packSourceID r) (packOffset r) = commit m r := by
-  simp only [inRange, decide_eq_true_eq] at hr
-  obtain ⟨t0, t1, p0, p1, o0, o1, e0, e1⟩ := hr
-  have ht : (BitVec.ofInt 64 r.topic).toNat = r.topic.toNat := by
-    rw [BitVec.toNat_ofInt]; congr 1; omega
-  have hp : (BitVec.ofInt 32 r.part).toNat = r.part.toNat := by
-    rw [BitVec.toNat_ofInt]; congr 1; omega
-  have ho : (BitVec.ofInt 64 r.offset).toNat = r.offset.toNat := by
-    rw [BitVec.toNat_ofInt]; congr 1; omega
-  have he : (BitVec.ofInt 32 r.epoch).toNat = r.epoch.toNat := by
-    rw [BitVec.toNat_ofInt]; congr 1; omega
-  have h1 := LemmasKafkaPack.sourceID_roundtrip (BitVec.ofInt 64 r.topic) (BitVec.ofInt 32 r.part)
-    (by rw [ht]; omega) (by rw [hp]; omega)
-  have h2 := LemmasKafkaPack.offset_roundtrip
-    { Partition := BitVec.ofInt 32 r.part, ProducerEpoch := 0, ProducerID := 0,
-      LeaderEpoch := BitVec.ofInt 32 r.epoch, Offset := BitVec.ofInt 64 r.offset }
-    (by show (BitVec.ofInt 64 r.offset).toNat < 2 ^ 47; rw [ho]; omega)
-    (by show (BitVec.ofInt 32 r.epoch).toNat < 2 ^ 16; rw [he]; omega)
-  have one : (1 : BitVec 64).toNat = 1 := rfl
-  have i1 : (BitVec.ofInt 64 r.topic).toInt = r.topic := by
-    rw [BitVec.toInt_eq_toNat_cond, ht]; split <;> omega
-  have i2 : (BitVec.ofInt 32 r.part).toInt = r.part := by
-    rw [BitVec.toInt_eq_toNat_cond, hp]; split <;> omega
-  have i3 : (BitVec.ofInt 32 r.epoch).toInt = r.epoch := by
-    rw [BitVec.toInt_eq_toNat_cond, he]; split <;> omega
-  have i4 : (BitVec.ofInt 64 r.offset + 1).toInt = r.offset + 1 := by
-    rw [BitVec.toInt_eq_toNat_cond, BitVec.toNat_add, ho, one]; split <;> omega
-  simp only [commitPacked, commit, packSourceID, packOffset, h1, h2, Rec.tp, Rec.eo, i1, i2, i3, i4]
+  obtain ⟨i1, i2, i3, i4⟩ := unpack_in_range r hr
+  simp only [commitPacked, commit, Rec.tp, Rec.eo, i1, i2, i3, i4]
 
 example : commitPacked [] (packSourceID ⟨2, 65535, 1000, 7⟩) (packOffset ⟨2, 65535, 1000, 7⟩)
     = [((2, 65535), (7, 1001))] := by
   rw [commit_packed_eq _ _ (by decide)]; rfl
+
+/-! ### topic ids: what Start assigns is what Commit resolves -/
+
+/-- **The mark goes to the record's own topic, for every configured topic list — duplicates
+    included.** `Start` gives a topic the last position it has in `Topics`, the consume loop packs
+    that id, `Commit` resolves it with `Topics[index]`: for every list of fewer than 2^48 entries,
+    every record of a configured topic (partition, offset, epoch in range) the step of the started
+    plugin on the packed values is the record-level `commit` on the record's own topic name. -/
+theorem start_commit_own_topic (topics : List Int) (m : Marks) (r : Rec)
+    (hmem : r.topic ∈ topics) (hlen : topics.length < 2 ^ 48)
+    (hr : inRange 0 r.part r.offset r.epoch = true) :
+    ∃ sid, startedSourceID topics r = some sid ∧
+      commitStarted topics m sid (packOffset r) = some (commit m r) := by
+  obtain ⟨j, hj⟩ := topicIDFrom_some_of_mem 0 topics r.topic hmem
+  have hj' : topicID topics r.topic = some j := hj
+  have hjl := topicID_lt_length topics r.topic j hj'
+  have hat : topics[j]? = some r.topic := by simpa using (topicIDFrom_spec 0 topics r.topic j hj).2
+  refine ⟨assembleSourceID (BitVec.ofInt 64 (j : Int)) (BitVec.ofInt 32 r.part),
+    by simp only [startedSourceID, hj']; rfl, ?_⟩
+  -- the record with its topic replaced by the id Start assigned is in range
+  have hr' : inRange (j : Int) r.part r.offset r.epoch = true := by
+    simp only [inRange, decide_eq_true_eq] at hr ⊢
+    omega
+  obtain ⟨i1, i2, i3, i4⟩ := unpack_in_range ⟨j, r.part, r.offset, r.epoch⟩ hr'
+  simp only [packSourceID, packOffset] at i1 i2 i3 i4
+  have hneg : ¬ ((j : Int) < 0) := by omega
+  simp only [commitStarted, packOffset, i1, i2, i3, i4, topicAt, hneg, if_false, Int.toNat_natCast, hat,
+    Option.map_some, commit, Rec.tp, Rec.eo]
+
+example : startedSourceID [5, 5, 9] ⟨9, 3, 40, 7⟩ = some 131075#64 ∧
+    commitStarted [5, 5, 9] [] 131075#64 (packOffset ⟨9, 3, 40, 7⟩) = some [((9, 3), (7, 41))] := by
+  obtain ⟨sid, h1, h2⟩ := start_commit_own_topic [5, 5, 9] [] ⟨9, 3, 40, 7⟩ (by decide) (by decide) (by decide)
+  have e : startedSourceID [5, 5, 9] ⟨9, 3, 40, 7⟩ = some 131075#64 := by decide
+  rw [e] at h1; cases h1
+  exact ⟨e, h2⟩
 
 /-! ### the executable oracle is the specification -/
 
